@@ -515,7 +515,7 @@ Qed.
 Lemma coh_view_entry c s n v k : Coh c s -> lookup n (st_views s k) = Some v -> get s n = Some v.
 Proof. intros HC H. apply (coh_lookup_view c s n v k HC) in H. unfold get. tauto. Qed.
 
-Lemma coh_ports c s n v p : c = CModule -> Coh c s -> get s n = Some v -> v_kind v = KSignal p ->
+Lemma coh_ports c s n v p d : c = CModule -> Coh c s -> get s n = Some v -> v_kind v = KSignal p d ->
   (lookup n (st_views s VPorts) = Some v <-> p = true) /\ (lookup n (st_views s VSignals) = Some v <-> p = false).
 Proof.
   intros -> HC H Hk. unfold get in H. split; rewrite (coh_lookup_view CModule s n v _ HC), Hk; destruct p; simpl;
